@@ -13,7 +13,7 @@ P1 == TestPlug(1)
 P2 == TestPlug(2)
 P3 == TestPlug(3)
 B1 == [id |-> "B1", methods |-> {"s"}, discover |-> TRUE]        \* e.g. scipy
-B2 == [id |-> "B2", methods |-> {"s"}, discover |-> FALSE]       \* e.g. external
+B2 == [id |-> "B2", methods |-> {"s", "t"}, discover |-> FALSE]  \* e.g. external; "t" stands for a qualified method "scipy/slsqp"
 Plug(i) == TestPlug(i)
 Builtin == <<[name |-> "b1", plugin |-> B1], [name |-> "b2", plugin |-> B2]>>
 
@@ -21,9 +21,9 @@ Builtin == <<[name |-> "b1", plugin |-> B1], [name |-> "b2", plugin |-> B2]>>
 Adds == {[op |-> "add", m |-> m, raw |-> a[1], p |-> a[2], prio |-> pr] :
            m \in 1..2, a \in {<<"x", 1>>, <<"X", 2>>, <<"y", 2>>, <<"z", 3>>}, pr \in BOOLEAN}
 Reqs == {<<"", "a">>, <<"", "b">>, <<"", "c">>, <<"", "s">>, <<"X", "a">>, <<"x", "c">>, <<"y", "b">>, <<"z", "a">>,
-         <<"b2", "s">>, <<"q", "a">>}
+         <<"b2", "s">>, <<"b2", "t">>, <<"q", "a">>}
 Gets == {[op |-> "get", m |-> m, plug |-> r[1], meth |-> r[2]] : m \in 1..2, r \in Reqs}
-Sups == {[op |-> "sup", m |-> m, plug |-> r[1], meth |-> r[2]] : m \in 1..2, r \in {<<"", "a">>, <<"", "c">>, <<"z", "c">>, <<"x", "b">>}}
+Sups == {[op |-> "sup", m |-> m, plug |-> r[1], meth |-> r[2]] : m \in {1}, r \in {<<"", "a">>, <<"", "c">>, <<"z", "c">>, <<"x", "b">>}}
 
 Init == reg = <<Builtin, Builtin>> /\ hist = <<>>
 
